@@ -368,6 +368,24 @@ example :
     (exec (init 4 10) as).pc = .wait ∧ (exec (init 4 10) as).signal = false ∧
     s'.ring (posOf 4 13) = some (el 13 1) ∧ (runN 12 s').height = 13 := by decide
 
+/-- `Put` as seeded change C20-m7 makes it: the "already queued" case returns before the `checkBlocks` signal. -/
+def putM7 (s : State) (e : Elem) (hr : Nat) : State :=
+  if s.discarded then s
+  else if e.idx ≤ hr then s
+  else if hr + s.cap < e.idx then s
+  else if keepsOld (s.ring (posOf s.cap e.idx)) e then s
+  else insert s e
+
+/-- Seeded change C20-m7 as a model, next to `queue_put_wakes_run`: in the state of the finding `stuck-ext` (12, 13
+queued, `Run` asleep, 11 added by another writer) a duplicate of 13 wakes `Run` with the code as it is (13 is
+reached), and leaves it asleep for ever when the duplicate case does not signal. -/
+theorem queue_duplicate_must_signal_witness :
+    let s := exec (init 4 10) [.run, .put (el 12 0) 10, .put (el 13 1) 10, .run, .run, .run, .adv]
+    (runN 12 (put s (el 13 7) 11)).height = 13 ∧ ∀ n, (runN n (putM7 s (el 13 7) 11)).height = 11 := by
+  refine ⟨by decide, fun n => ?_⟩
+  rw [runN_blocked n _ (by decide) (by decide) (by decide)]
+  decide
+
 end NeoModel.Queue
 
 namespace NeoModel.ChainAdd
@@ -1038,6 +1056,20 @@ theorem srecv_ok (H : SNode → Hash) (hinj : ∀ a b, H a = H b → a = b) (c :
   | nodes items =>
     exact recvEvB_ok H hinj c.db hkey [some items] (.batch (items.map (recvB H))) (by simp [recvEvB])
 
+/-- The hypothesis `hb0` of `SHyp` (a non-empty window below the sync point) is a consequence of what the driver
+checks on every case: the sync point is the one Init chooses and the window base is the one getLatestSavedBlock
+computes, for a positive interval and a positive MaxTraceableBlocks. -/
+theorem window_nonempty_of_cfg (top interval mtb p : Nat) (hi : 0 < interval) (hm : 0 < mtb)
+    (hp : syncPointOf top interval = some p) : windowBase p mtb < p := by
+  unfold syncPointOf at hp
+  split at hp
+  · cases hp
+  · rename_i h
+    cases hp
+    unfold windowBase
+    split <;> omega
+
+example : windowBase 12 5 = 7 ∧ windowBase 4 6 = 0 := by decide
 /-- C20 (state sync, safety for every schedule). `c` describes the source at the sync point `P` (trie, window
 `b0+1..P`, transaction lists), `H` is collision-free. Feed the module ANY sequence of calls: header batches
 (genuine, stale, with gaps, with altered headers), MPT data (trie nodes in any order and number, unsolicited,
